@@ -202,7 +202,7 @@ func entityStream(cfg *vh.Config, res *vh.Result, firstCase int) ([]string, erro
 			}
 		}
 		okall0, okall1 := acceptsAll(b0, t0, pkg, g0.ok), acceptsAll(b1, t1, pkg, g1.ok)
-		cf.Terms = append(cf.Terms, fmt.Sprintf("CAppendPair\n   %s\n   %s\n   %s\n   %s %s %s %s true\n   %s\n   %s", b0.Coq(), b1.Coq(), j5sgen.S(pkg),
+		cf.Terms = append(cf.Terms, fmt.Sprintf("CPlainEdit (CEdit\n   %s\n   [%s]\n   %s\n   %s\n   %s %s %s %s true\n   %s\n   %s)", b0.Coq(), rec.Coq, b1.Coq(), j5sgen.S(pkg),
 			vh.BoolTerm(g0.ok), vh.BoolTerm(g1.ok), vh.BoolTerm(okall0), vh.BoolTerm(okall1), filesCoq(g0.files), filesCoq(g1.files)))
 		k := len(cf.Terms) - 1
 		recs = append(recs, vh.CaseRec{Case: caseNo, Stream: stream, Input: in, Impl: map[string]any{"ok_before": g0.ok, "ok_after": g1.ok, "err_after": g1.err},
